@@ -135,7 +135,11 @@ impl<'a> Shared<'a> {
 fn c05_walk(sh: &Shared, root: &Pos, depth: u32, seed: u64, detours: bool) {
     let mut l = Local::default();
     let mut rng = Rng::new(seed);
-    let mut b = to_engine(root);
+    // the initial position comes from the engine's own constructors every other time (directly, or through a Game)
+    let mut b = if *root == Pos::start() && seed % 2 == 0 {
+        l.inc("walks_from_the_engine's_own_starting_position_constructor");
+        if seed % 4 == 0 { Board::starting_position() } else { chess::game::game::Game::new(0).board().clone() }
+    } else { to_engine(root) };
     let mut n = 0u64;
     fn rec(sh: &Shared, l: &mut Local, root: &Pos, p: &Pos, b: &mut Board, depth: u32, path: &mut Vec<Mv>, rng: &mut Rng, n: &mut u64, detours: bool) {
         *n += 1;
@@ -200,7 +204,7 @@ pub fn c05(o: &Opts) -> i32 {
     #[derive(Clone)]
     enum U { Walk(Pos, u32, bool), Game(u64), Setups(u64, usize) }
     let q = ctx.quick();
-    let mut units = vec![U::Walk(Pos::start(), 4, false), U::Walk(Pos::start(), 4, true)];
+    let mut units = vec![U::Walk(Pos::start(), 4, false), U::Walk(Pos::start(), 4, true), U::Walk(Pos::start(), 3, true), U::Walk(Pos::start(), 3, false)];
     let corpus = gen::corpus();
     for (i, (p, _)) in corpus.iter().enumerate() { if i < 12 || i % (if q { 6 } else { 2 }) == 0 { units.push(U::Walk(p.clone(), if i < 12 { 3 } else { 2 }, i % 2 == 1)); } }
     // en-passant-rich sparse set-ups to depth 5: every order of double steps, advances and king tempi
@@ -210,7 +214,7 @@ pub fn c05(o: &Opts) -> i32 {
     for g in 0..if q { 200 } else { 600 } { units.push(U::Game(o.seed.wrapping_mul(7919).wrapping_add(g))); }
     for s in 0..16 { units.push(U::Setups(o.seed.wrapping_mul(104729).wrapping_add(s), if q { 10000 } else { 40000 })); }
     par::for_each(&units, par::threads(), |i, u| match u {
-        U::Walk(p, d, detours) => c05_walk(&sh, p, *d, o.seed ^ (i as u64) << 8, *detours),
+        U::Walk(p, d, detours) => c05_walk(&sh, p, *d, (o.seed ^ (i as u64) << 8) & !3 | (i as u64 & 3), *detours),
         U::Game(s) => c05_game(&sh, *s),
         U::Setups(s, n) => {
             let mut l = Local::default(); let mut r = Rng::new(*s);
